@@ -20,25 +20,39 @@ namespace C03
 
 /-! ### Every commit request carries the last successfully processed offset at the time it is issued -/
 
-def clpStep (m : ProcSt) (x : Item) : Option ProcSt :=
+structure ClpSt where
+  p : ProcSt := {}
+  bad : Bool := false
+  deriving DecidableEq, Repr
+
+instance : HasBad ClpSt := ⟨ClpSt.bad⟩
+
+def clpStep (m : ClpSt) (x : Item) : ClpSt :=
   match x with
-  | .ob (.commitReq _ off) => if m.processed == some off then some m else none
-  | _ => some (procTrack m x)
+  | .ob (.commitReq _ off) => if m.p.processed == some off then m else { m with bad := true }
+  | _ => { m with p := procTrack m.p x }
 
 def commitLeProcessedOk (tr : List Item) : Bool := accepts clpStep {} tr
 
 /-! ### At most one (uncancelled) commit request outstanding -/
 
-def oifDone (m : Option Nat) (k : Nat) : Option Nat := if m == some k then none else m
+structure OifSt where
+  req : Option Nat := none
+  bad : Bool := false
+  deriving DecidableEq, Repr
 
-def oifStep (m : Option Nat) : Item → Option (Option Nat)
-  | .ob (.commitReq k _) => if m.isNone then some (some k) else none
-  | .ob (.cancelReq k) => some (oifDone m k)
-  | .ev (.commitOk k) => some (oifDone m k)
-  | .ev (.commitErr k _ _) => some (oifDone m k)
-  | _ => some m
+instance : HasBad OifSt := ⟨OifSt.bad⟩
 
-def oneInFlightOk (tr : List Item) : Bool := accepts oifStep none tr
+def oifDone (m : OifSt) (k : Nat) : OifSt := if m.req == some k then { m with req := none } else m
+
+def oifStep (m : OifSt) : Item → OifSt
+  | .ob (.commitReq k _) => if m.req.isNone then { m with req := some k } else { m with bad := true }
+  | .ob (.cancelReq k) => oifDone m k
+  | .ev (.commitOk k) => oifDone m k
+  | .ev (.commitErr k _ _) => oifDone m k
+  | _ => m
+
+def oneInFlightOk (tr : List Item) : Bool := accepts oifStep {} tr
 
 /-! ### `last_committed_offset` only takes a value the broker acknowledged or reported -/
 
@@ -46,7 +60,10 @@ structure AckSt where
   lc : Option Int := none
   reqs : List (Nat × Int) := []      -- commit requests issued: (id, offset)
   cur : Option Ev := none            -- the event being handled
+  bad : Bool := false
   deriving DecidableEq, Repr
+
+instance : HasBad AckSt := ⟨AckSt.bad⟩
 
 def ackJustified (m : AckSt) (lc' : Option Int) : Bool :=
   match m.cur, lc' with
@@ -54,43 +71,53 @@ def ackJustified (m : AckSt) (lc' : Option Int) : Bool :=
   | some (.offsetFetchOk _ off), some v => off != Afkak.Consts.offsetNotCommitted && v == off
   | _, _ => false
 
-def ackStep (m : AckSt) : Item → Option AckSt
-  | .ev e => some { m with cur := some e }
-  | .ob (.commitReq k off) => some { m with reqs := (k, off) :: m.reqs }
+def ackStep (m : AckSt) : Item → AckSt
+  | .ev e => { m with cur := some e }
+  | .ob (.commitReq k off) => { m with reqs := (k, off) :: m.reqs }
   | .ob (.probe _ lc') =>
-    if lc' == m.lc then some m
-    else if ackJustified m lc' then some { m with lc := lc' } else none
-  | _ => some m
+    if lc' == m.lc then m
+    else if ackJustified m lc' then { m with lc := lc' } else { m with bad := true }
+  | _ => m
 
 def committedAckedOk (tr : List Item) : Bool := accepts ackStep {} tr
 
-/-! ### Started from the committed position `c`, the first fetch is at `c + 1`, issued at once -/
+/-! ### Started from the committed position `c`, the next fetch is at `c + 1` -/
 
-def resStep (expect : Option Int) : Item → Option (Option Int)
-  | .ev (.offsetFetchOk _ c) => some (if 0 ≤ c then some (c + 1) else none)
+structure ResSt where
+  expect : Option Int := none
+  bad : Bool := false
+  deriving DecidableEq, Repr
+
+instance : HasBad ResSt := ⟨ResSt.bad⟩
+
+def resStep (m : ResSt) : Item → ResSt
+  | .ev (.offsetFetchOk _ c) => { m with expect := if 0 ≤ c then some (c + 1) else none }
+  | .ev (.start _) => { m with expect := none }     -- a restart overrides the position
   | .ob (.fetch _ off _) =>
-    match expect with
-    | some e => if off == e then some none else none
-    | none => some none
-  | .ob (.probe _ _) => if expect.isSome then none else some none
-  | _ => some expect
+    match m.expect with
+    | some e => if off == e then { m with expect := none } else { m with bad := true }
+    | none => m
+  | _ => m
 
-def resumeOk (tr : List Item) : Bool := accepts resStep none tr
+def resumeOk (tr : List Item) : Bool := accepts resStep {} tr
 
 /-! ### After a processor failure nothing more is delivered until the consumer is started again -/
 
 structure HaltSt where
   halted : Bool := false
   saved : Bool := false
+  bad : Bool := false
   deriving DecidableEq, Repr
 
-def haltStep (m : HaltSt) : Item → Option HaltSt
-  | .ev (.start _) => some { halted := false, saved := m.halted }
-  | .ob .raisedRestart => some { m with halted := m.saved }
-  | .ob (.procRet (.err k _)) => some (if k == .cancelled then m else { m with halted := true })
-  | .ev (.procErr _ _) => some { m with halted := true }
-  | .ob (.proc _) => if m.halted then none else some m
-  | _ => some m
+instance : HasBad HaltSt := ⟨HaltSt.bad⟩
+
+def haltStep (m : HaltSt) : Item → HaltSt
+  | .ev (.start _) => { m with halted := false, saved := m.halted }
+  | .ob .raisedRestart => { m with halted := m.saved }
+  | .ob (.procRet (.err k _)) => if k == .cancelled then m else { m with halted := true }
+  | .ev (.procErr _ _) => { m with halted := true }
+  | .ob (.proc _) => if m.halted then { m with bad := true } else m
+  | _ => m
 
 def failureStopsOk (tr : List Item) : Bool := accepts haltStep {} tr
 
